@@ -45,6 +45,19 @@ def run(pid, tier, args):
         byid = {c["id"]: c for c in cases}
         if not any(a.startswith("M") for a in accepted):
             raise Infra("no metacharacter rule map accepted by lexer.New")
+        # error TEXTS of failing runs (original vs rebuilt definitions) and the JSON of single rules held across calls
+        jout = vlib.vh(vhbin, ["json-errors", rawpath, "2" if tier == "quick" else "3"], timeout=1800)
+        njerr = 0
+        for line in jout.splitlines():
+            q = line.split("\t")
+            if q[0] == "MISMATCH":
+                njerr += 1
+                if njerr <= 3:
+                    v.violation("rule map %s: %s" % (q[1], q[2][:400]), {"property": pid, "kind": "json-errors", "alpha": alpha, "case": byid.get(q[1]), "detail": q[2]})
+            elif q[0] == "DONE":
+                v.validated(int(q[1]))
+        if "DONE" not in jout:
+            raise Infra("json-errors did not finish")
         # document + symbol tables
         res = vlib.run_tlc(wd, "MC_LexStatic", modules=["StatefulLexer", "Regex", "Position"], extra_files=[os.path.join(wd, "cases.json")],
                            consts={"Mode": '"syms"'}, timeout=600)
